@@ -48,6 +48,7 @@ type Engine struct {
 	tagOf map[string]int // dynamic type name -> interface tag
 
 	modsets map[string]*modset
+	traceSigs map[string][]types.Type
 
 	timeoutQuick int
 }
@@ -129,6 +130,7 @@ type State struct {
 	facts  map[string]bool
 	dead   bool
 	frame  *frame
+	allocs []string
 }
 
 // frame describes the function body being executed (for inlining).
@@ -146,7 +148,7 @@ type retval struct {
 }
 
 func (s *State) clone() *State {
-	n := &State{pc: s.pc, old: s.old, frame: s.frame}
+	n := &State{pc: s.pc, old: s.old, frame: s.frame, allocs: append([]string(nil), s.allocs...)}
 	n.vars = make(map[*types.Var]*Val, len(s.vars))
 	for k, v := range s.vars {
 		n.vars[k] = v
@@ -202,7 +204,7 @@ func (e *Engine) sortOf(t types.Type) string {
 		if obj.Pkg() != nil && obj.Pkg() != e.pkg.Types {
 			// foreign named type
 			switch obj.Pkg().Path() + "." + obj.Name() {
-			case "time.Duration", "reflect.Kind":
+			case "time.Duration", "reflect.Kind", "reflect.Type":
 				return "Int"
 			}
 			if _, isIface := u.Underlying().(*types.Interface); isIface {
